@@ -33,6 +33,8 @@ type Desc struct {
 	Version  string `json:"version,omitempty"`
 	RawQ     string `json:"raw_quoted,omitempty"`
 	PayloadQ string `json:"payload_quoted,omitempty"`
+	// errforms: which part of the enumerated rpc-error form list
+	Part string `json:"part,omitempty"`
 	// drv
 	Drv *DrvSession `json:"drv,omitempty"`
 }
@@ -119,7 +121,9 @@ func gen(tier string, seed int64) []mon.Case {
 	for k, w := range legalWitnesses() {
 		cs = append(cs, mon.MkCase(fmt.Sprintf("c02/witness-legal/%02d", k), w))
 	}
-	cs = append(cs, mon.MkCase("c02/errforms/00", Desc{Kind: "errforms"}))
+	for _, part := range []string{"end-tag-plain", "end-tag-whitespace", "self-closing", "decoys", "literal-decoys"} {
+		cs = append(cs, mon.MkCase("c02/errforms/"+part, Desc{Kind: "errforms", Part: part}))
+	}
 	total := EnumTotal(b.enumLen)
 	for k, st := 0, int64(0); st < total; k, st = k+1, st+int64(b.enumBatch) {
 		n := int64(b.enumBatch)
@@ -151,7 +155,7 @@ func run(c mon.Case) mon.Result {
 	case "mut":
 		return runMut(d.Seed, d.N)
 	case "errforms":
-		return runErrForms()
+		return runErrForms(d.Part)
 	case "witness":
 		return runWitness(d.Version, d.RawQ, d.PayloadQ)
 	case "drv":
